@@ -7,7 +7,7 @@ V = os.path.dirname(os.path.dirname(os.path.abspath(__file__)))
 CLAIMED = {
  "C09": dict(engine="effects", cat="fault_enumeration", ref="5.5",
    technique="deterministic simulation: seeded generated try/with programs whose every dynamic effect point is a fault site; every single fault enumerated, fault pairs sampled; reference interpreter oracle",
-   text="For each generated try/with program every single injected exception (position x class) is executed and compared against a reference interpreter (value/escaping exception, effect trace, outer variables); pairs of faults are sampled. The fault space per program is enumerated, the programs are sampled.",
+   text="For each generated try/with program every single injected exception (position x class) is executed and compared against a reference interpreter (value/escaping exception, effect trace, outer variables); pairs of faults are sampled. Programs include closures, statement-bearing comprehensions, coroutines with mixed sync/async managers and variable-hygiene templates. The fault space per program is enumerated, the programs are sampled.",
    note="Trusts the reference interpreter, which inherits clause selection/finally/propagation from the host Python's own try/with; programs are sampled, not enumerated."),
  "C13": dict(engine="procs", cat="exploration", ref="5.6",
    technique="deterministic simulation over the process-launch seam: same batch compiled in fresh interpreters under a seeded set of PYTHONHASHSEED values, AST/bytecode digests diffed",
@@ -15,11 +15,11 @@ CLAIMED = {
    note="Only hash-seed (and address) nondeterminism is swept; agreement over s seeds is evidence, not proof."),
  "C15": dict(engine="world", cat="exploration", ref="5.7",
    technique="deterministic simulation of a scratch filesystem world: seeded histories of writes, simulated mtime clock, restarts, pyc loss/truncation and bytecode-write faults, checked against by-construction expected module values and macro tables",
-   text="Seeded histories over a scratch module world (source import, cached import, touch, pyc deletion/truncation, failing or crashing bytecode writes, -B) with an oracle on module values, required-macro availability and which load path ran; extension rule checked across suffixes.",
+   text="Seeded histories over a scratch module world (source import, cached import, touch, pyc deletion/truncation, failing or crashing bytecode writes, -B) with an oracle on module values, required-macro availability and which load path ran; package worlds (submodule fallback, relative and transitive requires); extension rule checked across suffixes incl. one registered after import.",
    note="Restart is a sys.modules purge (validated against real subprocesses in the thorough tier); pyc body corruption and same-mtime-same-size edits are CPython limitations and excluded."),
  "C16": dict(engine="world", cat="exploration", ref="5.8",
    technique="deterministic simulation of compile/run/cached-run histories with an effect log split by the loader's compile phase, against a reference staging model",
-   text="Generated modules with eval-when-compile / eval-and-compile / do-mac bodies that log; histories of source loads, cached loads, touches and pyc faults; compile-phase and run-phase effect logs must equal the reference staging model at every step.",
+   text="Generated modules with eval-when-compile / eval-and-compile / do-mac bodies that log; histories of source loads, cached loads, touches and pyc faults; compile-phase and run-phase effect logs must equal the reference staging model at every step. Staging forms also sit inside 14 enclosing constructs and after early returns; the same text is also imported from zip archives and run as a script through run_path.",
    note="Phase attribution via a wrapper around the loader's get_code; staging forms are not nested in each other."),
  "C19": dict(engine="stream", cat="fault_enumeration", ref="5.9",
    technique="deterministic simulation of a failing input stream: EOF injected at every offset of seeded generated texts, through hy.read_many and the REPL's line feeder",
@@ -43,7 +43,7 @@ CLAIMED = {
    note="Front ends: lazy read_many + hy.eval, read one/eval one, module import, REPL."),
  "C38": dict(engine="threads", cat="exploration", ref="5.1",
    technique="deterministic simulation: real threads under a seeded baton-passing scheduler pre-empting at every bytecode of gensym and every lock operation; black-box oracle on returned symbols",
-   text="2-4 real threads call hy.gensym under a seeded scheduler that decides every pre-emption at bytecode granularity; returned symbols must be pairwise distinct, _hy_-prefixed, mangle-stable Symbols. Thousands of distinct interleavings per quick run; failures replay from the recorded decision list.",
+   text="2-4 real threads call hy.gensym under a seeded scheduler that decides every pre-emption at bytecode granularity; returned symbols must be pairwise distinct, _hy_-prefixed, mangle-stable Symbols; arguments include objects whose text conversion raises or re-enters gensym, and label pairs with equal manglings; a lock left held is a deadlock violation. Thousands of distinct interleavings per quick run; failures replay from the recorded decision list.",
    note="Sampling, not enumeration, of the interleaving space; pre-emption only at Python bytecode boundaries; the lock is a simulated lock with the same API."),
  "C39": dict(engine="crashpoints+effects", cat="exploration", ref="5.4",
    technique="deterministic simulation: seeded histories of hy.eval calls on shared dicts with exceptions injected at the k-th effect of evaluated code, inside macro bodies, in the reader, and at the k-th line event inside hy's own frames",
@@ -55,7 +55,7 @@ CLAIMED = {
    note="Stand-alone blank lines at the primary prompt are not generated (the statement does not settle them)."),
  "C41": dict(engine="cli", cat="exploration", ref="5.13",
    technique="deterministic simulation of the process boundary: hy_main run in forked children with simulator-owned argv, stdin, cwd, module files and cache state; four invocation modes compared",
-   text="Generated programs and argument vectors run through -c, FILE, stdin and -m in forked children on identical scratch worlds (cache cold/warm); stdout, exit status and sys.argv compared across modes and with the documented argv.",
+   text="Generated programs and argument vectors run through -c, FILE, stdin and -m in forked children on identical scratch worlds (cache cold/warm); stdout, program-written stderr lines, exit status and sys.argv compared across modes and with the documented argv; programs import/require a sibling module, install an excepthook, end by OS errors; the byte-compiled script is run too.",
    note="Configuration sweep; no scheduler decision exists for this property."),
 }
 
